@@ -53,6 +53,11 @@ chk('C12', 'exploration',
     '12 base programs with several lint errors (different rules, nested in if/else and bare blocks, first and last statement of a block, across two subroutines, after the covered region) x every placement of one ignore comment (next-line before every statement incl. compound ones, trailing on every simple statement, start/end around every contiguous statement range of every block with the end before the next statement or as the last comment of the block) x {no rule list, a covered rule, an uncovered rule, two rules} x {//, #, /* */}, and every pair of placements (thorough: every triple). Oracle: diagnostics(with) = diagnostics(without) minus those located on covered lines (of a listed rule), as multisets of (severity, rule, message).',
     'Trusts: lintx driver; coverage is computed on line spans of a one-statement-per-line layout; ranges follow the sequential semantics documented in docs/linter.md (an unqualified falco-ignore-end re-enables all rules).')
 
+chk('C11', 'exploration',
+    'bounded-exhaustive enumeration of programs and include graphs under fuel; exhaustive exploration of map iteration orders through a source-level seam; all declaration permutations',
+    'Totality: every derivation within 2 (quick) / 3 (thorough) deviations, every single-site ill-typed atom mutant of every derivation within 1 deviation and all 8192 include graphs over {main, a, b} x {a, b, itself, missing} x {root level, inside a subroutine} are linted twice under a fuel budget (no panic, no non-termination, identical diagnostics). Determinism: every range-over-map loop of linter and linter/context is rewritten at build time (go/types) to iterate through a seam; for 20 programs with 2-3 entities per map and cyclic call graphs every permutation at every dynamic loop execution with at most 2 executions deviating from natural order is explored and must give the identical diagnostic multiset incl. locations. All 24 declaration orders of 6 programs give the same diagnostics apart from locations.',
+    'Trusts: instrumenter (fuel, map-order seam) - falco\'s own tests pass through the overlay; lintx driver with an in-memory resolver.')
+
 NOT_YET = {i: 'check not built yet in this session (design in DESIGN.md §4); will be claimed once its command exists' for i in ids if i not in CHECKS}
 
 m = {
